@@ -85,9 +85,9 @@ def run(rep, tier, seed, replay=None):
     if rc != 0:
         rep.add_broken('build', 'harness', out[-1500:])
         return
-    nk = 300 if tier == 'quick' else 3000
+    nk = 400 if tier == 'quick' else 4000
     if changed:
-        nk = 3000
+        nk = 4000
     engine_correspondence(rep, binp, seed, nk)
     # WF / H1 are premises of the C01/C15 theorems, not of the C17 ones (which hold for every algorithm and every tree):
     # a trace that falsifies them is recorded here, and reported by ./check C01
@@ -98,7 +98,7 @@ def run(rep, tier, seed, replay=None):
     k_distinct = rep.cov.get('distinct_nontrivial', 0)
     custom_tree_correspondence(rep, binp, seed, nk)
     # ---- search
-    n = 6000 if tier == 'quick' and not rep.broken and not changed else 120000
+    n = 30000 if tier == 'quick' and not rep.broken and not changed else 300000
     start = 0
     if replay and replay.get('kind') != 'history':
         start, n = replay['idx'], 1
@@ -121,6 +121,7 @@ def run(rep, tier, seed, replay=None):
     rep.cov['k_distinct_histories'] = k_distinct
     rep.cov['distinct_nontrivial'] = int(d0.group(6)) + k_distinct
     rep.cov['evaluations'] = rep.cov.get('evaluations', 0) + 2 * int(d0.group(1))
+    rep.cov['known_finding_computesize_scribble_reproduced'] = bool(k1)
     if k1:
         rep.known.append('%s  [%d of %d cases of this run; e.g. %s]' % (SCRIBBLE, len(k1), int(d1.group(1)), sorted(k1.items())[0][1][:260]))
     for mode, fails in ((0, f0), (1, f1)):
